@@ -381,6 +381,7 @@ impl<'a> Cur<'a> {
                 _ => return err("bad block tag"),
             }
         }
+        stats.uncompressed_len = raw.len();
         let mut c = Cur { buf: &raw, pos: 0 };
         let mut ops = Vec::new();
         while c.pos < raw.len() {
@@ -394,6 +395,8 @@ impl<'a> Cur<'a> {
 pub struct BlockStats {
     pub compressed: usize,
     pub raw: usize,
+    /// bytes of the operation stream before compression
+    pub uncompressed_len: usize,
 }
 
 #[derive(Clone, Debug)]
